@@ -233,6 +233,27 @@ func c10Worker(args []string) {
 		}
 		rep.Scripts++
 	}
+	// objects with fields the engine cannot convert (its diagnostics go to standard output,
+	// which is allowed - and nowhere else)
+	marker("CALL/unconvertible-objects/0")
+	oscripts := c08ObjectScripts([]string{"F0", "F1", "A", "M"})
+	hostile := gen.HostileValues()
+	for i := 0; i < 4*len(hostile); i++ {
+		obj := hostile[i%len(hostile)]
+		if evr, err := eng.New(oscripts[(i*7)%len(oscripts)], eng.Options{Budget: 100000, NoOptimize: i%2 == 0, TraceCap: 1 << 20}); err == nil {
+			evr.Exec(obj)
+			evr.RunBool(obj)
+			rep.Calls++
+		}
+	}
+	for i := 0; i < 300; i++ {
+		rr := rand.New(rand.NewSource(seed*104729 + int64(i)))
+		obj := gen.RandStruct(rr, 1+rr.Intn(8), 45, 20).Obj
+		if evr, err := eng.New(oscripts[rr.Intn(len(oscripts))], eng.Options{Budget: 100000, TraceCap: 1 << 20}); err == nil {
+			evr.Exec(obj)
+			rep.Calls++
+		}
+	}
 	// variables with special-looking names holding paths, URLs and commands: set by the
 	// host before Prepare, and by the script itself followed by another Prepare (which
 	// is when the engine looks at DEBUG / OPTIMIZE) and further runs
